@@ -12,6 +12,8 @@ import time
 
 import z3
 
+from . import nlhints
+
 
 class Obligation:
     def __init__(self, name, hyps, goal, kind="post", props=(), witness=None, meta=None, expect_sat=False):
@@ -73,53 +75,174 @@ def _validate(m, hyps, neg_goal):
     return True
 
 
-def external(smt2, timeout_s, want_models=False):
-    """Try the other installed solvers on an SMT-LIB2 dump; -> (status, backend)."""
+def external(smt2, timeout_s):
+    """Run the other installed solvers on an SMT-LIB2 dump concurrently; -> (status, backend)."""
     with tempfile.NamedTemporaryFile("w", suffix=".smt2", delete=False, dir=os.environ.get("VERIF_TMP")) as f:
         f.write(smt2)
         path = f.name
+    procs = []
     try:
         for backend, cmd in (("cvc5", ["/usr/bin/cvc5", "--strings-exp", "--tlimit=%d" % int(timeout_s * 1000), path]),
                              ("z3-4.8", ["/usr/bin/z3", "-T:%d" % max(1, int(timeout_s)), path])):
             try:
-                out = subprocess.run(cmd, capture_output=True, text=True, timeout=timeout_s + 5).stdout.strip().splitlines()
-            except Exception:
-                continue
-            if out and out[0].strip() == "unsat":
-                return "unsat", backend
-        return "unknown", None
+                procs.append((backend, subprocess.Popen(cmd, stdout=subprocess.PIPE, stderr=subprocess.DEVNULL, text=True)))
+            except OSError:
+                pass
+        deadline = time.time() + timeout_s + 3
+        verdict = ("unknown", None)
+        pending = list(procs)
+        while pending and time.time() < deadline:
+            for bp in list(pending):
+                backend, p = bp
+                if p.poll() is not None:
+                    pending.remove(bp)
+                    out = (p.stdout.read() or "").strip().splitlines()
+                    if out and out[0].strip() == "unsat":
+                        verdict = ("unsat", backend)
+                        pending = []
+                        break
+                    if out and out[0].strip() == "sat" and verdict[0] == "unknown":
+                        verdict = ("sat", backend)
+            time.sleep(0.02)
+        return verdict
     finally:
+        for _b, p in procs:
+            if p.poll() is None:
+                p.kill()
+            try:
+                p.wait(timeout=2)
+            except Exception:
+                pass
         os.unlink(path)
 
 
-def prove(ob, axioms=(), timeout_ms=60000, use_external=True):
-    t0 = time.time()
+QUICK_MS = 2500
+
+
+def _z3_check(hyps, neg, nl, timeout_ms):
     s = z3.Solver()
     s.set("timeout", int(timeout_ms))
-    hyps = list(axioms) + ob.hyps
     s.add(*hyps)
+    s.add(neg)
+    if nl:
+        s.add(*nl)
+    return s, s.check()
+
+
+def prove(ob, axioms=(), timeout_ms=60000, use_external=True):
+    """Portfolio: z3 API briefly, then cvc5 and z3 4.8 on the dump, then z3 API with the full budget."""
+    t0 = time.time()
+    hyps = list(axioms) + ob.hyps
     if ob.expect_sat:
+        s = z3.Solver()
+        s.set("timeout", int(timeout_ms))
+        s.add(*hyps)
         s.add(ob.goal)
         r = s.check()
         # a cover is reachable only on sat; unknown is reported as undecided
         st = "discharged" if r == z3.sat else ("failed" if r == z3.unsat else "undecided")
         return Result(ob, st, "z3-api", time.time() - t0, reason="cover %s" % r)
     neg = z3.Not(ob.goal)
-    s.add(neg)
-    r = s.check()
-    if r == z3.unsat:
-        return Result(ob, "discharged", "z3-api", time.time() - t0)
-    if r == z3.sat:
-        m = s.model()
-        if _validate(m, ob.hyps, neg):
-            res = Result(ob, "failed", "z3-api", time.time() - t0, model=_model_dict(m, ob.witness))
-            res.smt2 = s.to_smt2() if len(s.to_smt2()) < 60000 else None
-            return res
-        reason = "sat model did not validate"
-    else:
-        reason = "z3 unknown: %s" % s.reason_unknown()
+    nl = nlhints.hints(hyps + [neg])
+    if nl:
+        ob.meta["nl_hints"] = len(nl)   # theorem instances of integer arithmetic over terms of the query
+    reason = ""
+    stages = [("z3-api", min(QUICK_MS, timeout_ms))]
     if use_external:
-        st, backend = external(s.to_smt2(), min(60, timeout_ms / 1000.0))
-        if st == "unsat":
-            return Result(ob, "discharged", backend, time.time() - t0)
+        stages.append(("external", min(30000, timeout_ms)))
+    stages.append(("z3-api", timeout_ms))
+    ext_sat = False
+    for (which, budget) in stages:
+        if which == "external":
+            s = z3.Solver()
+            s.add(*hyps)
+            s.add(neg)
+            if nl:
+                s.add(*nl)
+            st, backend = external(s.to_smt2(), budget / 1000.0)
+            if st == "unsat":
+                return Result(ob, "discharged", backend, time.time() - t0)
+            ext_sat = st == "sat"
+            continue
+        s, r = _z3_check(hyps, neg, nl, budget)
+        if r == z3.unsat:
+            return Result(ob, "discharged", "z3-api", time.time() - t0)
+        if r == z3.sat:
+            m = s.model()
+            if _validate(m, ob.hyps, neg):
+                res = Result(ob, "failed", "z3-api", time.time() - t0, model=_model_dict(m, ob.witness))
+                txt = s.to_smt2()
+                res.smt2 = txt if len(txt) < 60000 else None
+                return res
+            reason = "sat model did not validate"
+            break
+        reason = "z3 unknown: %s" % s.reason_unknown()
+    if ext_sat:
+        reason += "; an external solver answered sat (no model extracted)"
     return Result(ob, "undecided", "z3-api", time.time() - t0, reason=reason)
+
+
+# ---------------------------------------------------------------------------------------------
+# parallel discharge (fork: the z3 terms are inherited, only plain results travel back)
+# ---------------------------------------------------------------------------------------------
+
+def prove_groups(groups, axioms, timeout_ms, workers):
+    """groups: list of lists of obligations; the obligations of one group are proved in order and the
+    discharged goals of a group are added as hypotheses of its later members (lemma chaining).
+    -> list of Result in the order of the flattened input."""
+    import pickle
+
+    def run_group(g):
+        out, proved = [], []
+        for ob in g:
+            if proved:
+                ob.hyps = ob.hyps + proved
+            r = prove(ob, axioms, timeout_ms)
+            out.append(r)
+            if r.status == "discharged" and ob.meta.get("chain") is not None and not ob.expect_sat:
+                proved.append(ob.goal)
+        return out
+    n = len(groups)
+    workers = max(1, min(workers, n))
+    if workers == 1:
+        return [r for g in groups for r in run_group(g)]
+    # static round-robin partition, largest groups first
+    order = sorted(range(n), key=lambda i: -len(groups[i]))
+    parts = [order[w::workers] for w in range(workers)]
+    pipes = []
+    for part in parts:
+        rfd, wfd = os.pipe()
+        pid = os.fork()
+        if pid == 0:
+            os.close(rfd)
+            try:
+                payload = {}
+                for gi in part:
+                    payload[gi] = [(r.status, r.backend, r.secs, r.model, r.reason, r.smt2, groups[gi][j].meta)
+                                   for j, r in enumerate(run_group(groups[gi]))]
+                data = pickle.dumps(payload)
+            except BaseException as e:      # pragma: no cover
+                data = pickle.dumps({"__error__": repr(e)})
+            with os.fdopen(wfd, "wb") as f:
+                f.write(data)
+            os._exit(0)
+        os.close(wfd)
+        pipes.append((pid, rfd))
+    got = {}
+    for pid, rfd in pipes:
+        with os.fdopen(rfd, "rb") as f:
+            data = f.read()
+        os.waitpid(pid, 0)
+        payload = pickle.loads(data) if data else {"__error__": "worker died"}
+        if "__error__" in payload:
+            raise RuntimeError("prover worker failed: %s" % payload["__error__"])
+        got.update(payload)
+    out = []
+    for gi, g in enumerate(groups):
+        for ob, tup in zip(g, got[gi]):
+            status, backend, secs, model, reason, smt2, meta = tup
+            ob.meta = meta
+            r = Result(ob, status, backend, secs, model=model, reason=reason)
+            r.smt2 = smt2
+            out.append(r)
+    return out
